@@ -16,6 +16,7 @@ package raft
 
 import (
 	"fmt"
+	"io/ioutil"
 	"os"
 	"path/filepath"
 	"strconv"
@@ -30,7 +31,7 @@ type value struct {
 }
 
 func openValue(dir, ext string) (*value, error) {
-	matches, err := filepath.Glob(filepath.Join(dir, "*"+ext))
+	matches, err := filesWithExt(dir, ext)
 	if err != nil {
 		return nil, err
 	}
@@ -93,4 +94,21 @@ func (v *value) set(v1, v2 uint64) error {
 
 func valueFile(dir, ext string, v1, v2 uint64) string {
 	return filepath.Join(dir, fmt.Sprintf("%d-%d%s", v1, v2, ext))
+}
+
+// filesWithExt returns names of the files in dir ending with ext.
+// unlike filepath.Glob, dir is taken literally: it may contain
+// glob metacharacters.
+func filesWithExt(dir, ext string) ([]string, error) {
+	infos, err := ioutil.ReadDir(dir)
+	if err != nil {
+		return nil, err
+	}
+	var names []string
+	for _, info := range infos {
+		if strings.HasSuffix(info.Name(), ext) {
+			names = append(names, info.Name())
+		}
+	}
+	return names, nil
 }
